@@ -193,7 +193,7 @@ j_c02w = j_notes(r"ROUNDTRIP-FAIL\S*", "frame round trip failed", "Reader restor
 j_c02r = j_notes(r"WRONG-CONTENT", "Reader did not deliver exactly the content", "content then io.EOF")
 j_c05 = j_and(j_orc("accept"), j_notes(r"$^", "", ""))
 j_c06 = j_notes(r"TRUNC-ACCEPTED|NOT-PREFIX|DIFFERS-FROM-NEW-READER", "truncated frame presented as complete / wrong bytes", "error other than io.EOF, delivered bytes a prefix")
-j_c07 = j_and(j_notes(r"EXPECTED-\S+|ALLOC-EXCESS\S*", "Reader misbehaves on hostile input", "terminates; invalid frame / skip exactly 16 magics; bounded allocation"), j_orc("accept"))
+j_c07 = j_and(j_notes(r"EXPECTED-\S+|ALLOC-EXCESS\S*|LIVE-HEAP-EXCESS\S*", "Reader misbehaves on hostile input", "terminates; invalid frame / skip exactly 16 magics; bounded allocation"), j_orc("accept"))
 j_c09 = j_and(j_orc("frame"), j_notes(r"$^", "", ""))
 j_c15w = j_notes(r"SINK-FAILURE-NOT-REPORTED|SINK-NOT-PREFIX-OF-FAULT-FREE", "sink failure not reported faithfully", "the failure is returned at the latest by Close; the sink holds a prefix of the fault-free output")
 j_c15r = j_notes(r"TRUNC-ACCEPTED|NOT-PREFIX|WRONG-CONTENT|EXPECTED-\S+", "source failure / fragmentation mishandled", "the injected error, prefix delivered; fragmentation irrelevant")
@@ -386,9 +386,9 @@ SCHED = {"VERIF_SCHED": "1"}
 PROPS = {
     "C08": dict(runs=[FW("conc", judge=j_c08, env=SCHED), FR("frmut", judge=j_c08, env={"VERIF_SCHED": "2"}), FW("fwfail", judge=j_c08, env={"VERIF_SCHED": "3"})],
                 extra=[x_c08_race], theorems=T_C08 + T_C08t),
-    "C20": dict(runs=[], extra=[x_c20], theorems=T_C20 + T("C02", "c02_roundtrip"),
+    "C20": dict(runs=[dict(CMP, judge=j_c01)], extra=[x_c20], theorems=T_C20 + T("C02", "c02_roundtrip"),
                 rule="each case = (flag set, generated file, mode, file or stdin/stdout); every case is non-trivial; distinct = distinct case description"),
-    "C02": dict(runs=[FW("fw", judge=j_c02w), FR("fr", judge=j_c02r)], theorems=T("C02", "c02_roundtrip", "c02_roundtrip_read", "c02_roundtrip_read_consumed", "c02_read_no_error", "written_lenient") + T("C09full", "c09_writer_all", ns="C09")),
+    "C02": dict(runs=[FW("fw", judge=j_c02w), FR("fr", judge=j_c02r), POOL_FAM], theorems=T("C02", "c02_roundtrip", "c02_roundtrip_read", "c02_roundtrip_read_consumed", "c02_read_no_error", "written_lenient") + T("C09full", "c09_writer_all", ns="C09")),
     "C05": dict(runs=[FR("frmut", judge=j_c05), FR("fr", judge=j_c05), POOL_FAM], theorems=T_C05 + T_POOL + T_TABLES),
     "C06": dict(runs=[FR("frtrunc", judge=j_c06)], theorems=T_C06 + T_C06r),
     "C07": dict(runs=[FR("frhost", judge=j_c07), FR("frmut", judge=j_c07), POOL_FAM], theorems=T_POOL + T_TABLES + T_C07 + T("C19", "c19_bad_magic") + T("C08", "R.progress", "R.terminates", "R.noleak")),
